@@ -159,6 +159,8 @@ func encryptSide(r *mon.Run) {
 	// counter only shows against the independent reference
 	for vi, via := range ax.Vias {
 		cases = append(cases, encCase{list: []string{"X1"}, length: 65536 * (1 + vi%3), armored: vi%2 == 0, via: via})
+		// and a length that leaves single hand-over steps of more than one chunk
+		cases = append(cases, encCase{list: []string{"X2"}, length: 150000 + 65536*(vi%2) + vi, armored: vi%2 == 1, via: via})
 	}
 	cases = append(cases, encCase{list: []string{"X1"}, length: 300*65536 + 5, via: ax.ViaWrite},
 		encCase{list: []string{"E1"}, length: 257 * 65536, via: ax.ViaCopyPlain})
